@@ -145,6 +145,8 @@ func runC10(p *Prog, r *Report, tier string) {
 	type updSite struct{ onMissAll, seen bool }
 	updates := map[ssa.Instruction]*updSite{}
 	var updOrder []ssa.Instruction
+	domainUpd := map[ssa.Instruction]*updSite{}
+	var domainOrder []ssa.Instruction
 	// the comma-ok lookups of the template store in this function: outer (by observation domain) and inner (by template id)
 	type lk struct {
 		ex    *ssa.Extract // the ok result (comma-ok form)
@@ -222,6 +224,27 @@ func runC10(p *Prog, r *Report, tier string) {
 				es.bad = fmt.Sprintf("%T %s", v, v.Name())
 			}
 		case *ssa.MapUpdate:
+			// a fresh per-domain map replaces whatever the domain held: allowed only where the domain is known to hold nothing
+			if _, isMake := st.resolve(x.Value).(*ssa.MakeMap); isMake && isFieldLoad(x.Map, "pkg/collector.CollectingProcess.templatesMap") {
+				ds := domainUpd[in]
+				if ds == nil {
+					ds = &updSite{onMissAll: true}
+					domainUpd[in] = ds
+					domainOrder = append(domainOrder, in)
+				}
+				missOuter := false
+				for _, l := range lookups {
+					if l.ex != nil && !l.inner {
+						if okV, known := st.bools[st.key(l.ex)]; known && !okV {
+							missOuter = true
+						}
+					}
+				}
+				if !missOuter {
+					ds.onMissAll = false
+				}
+				return
+			}
 			al, ok := st.resolve(x.Value).(*ssa.Alloc)
 			if !ok || typeName(al.Type()) != "pkg/collector.template" {
 				return
@@ -263,6 +286,10 @@ func runC10(p *Prog, r *Report, tier string) {
 	// a fresh entry replaces nothing: it is created and put into the map only on a way in on which the lookup missed.
 	// Created for an id that IS stored (for whatever reason: "different definition", ...) it orphans the old entry's armed
 	// timer and gives the template a second one.
+	for _, in := range domainOrder {
+		r.Check(domainUpd[in].onMissAll, "R-TIMER.domain-on-miss", fnKey(at)+": a fresh per-domain map is stored only for a domain that has none", p.instrPos(in), "on the miss edge of templatesMap[obsDomainID]",
+			"a new map replaces the observation domain's templates although the domain may already hold some: the sibling templates are dropped before their lifetime ends (their timers stay armed) and data sets for them are rejected", true)
+	}
 	for _, in := range updOrder {
 		r.Check(updates[in].onMissAll, "R-TIMER.entry-on-miss", fnKey(at)+": a new template entry is stored only when none exists", p.instrPos(in), "dominated by the miss edge of templatesMap[obsDomainID][templateID]",
 			"a fresh entry can replace a stored one: the replaced entry's timer stays armed (an orphan that fires later) and the template gets a second timer - 'exactly one armed timer per stored template, none for removed ones' is lost", true)
@@ -443,5 +470,53 @@ func runC10(p *Prog, r *Report, tier string) {
 	}
 	if n < 5 {
 		r.Undecided("R-LOCK.guarded", "anchor: accesses of template.expiryTime/expiryTimer", "pkg/collector/process.go", fmt.Sprintf("only %d found", n))
+	}
+}
+
+// checkDomainPrune: the whole per-domain template map is removed only when it has become empty (C10's prune rule in a
+// form other properties import: removing it while it still holds templates drops definitions that were validly received -
+// other template ids, other connections of the same observation domain).
+func checkDomainPrune(p *Prog, r *Report, rule string) {
+	n := 0
+	for _, f := range p.RepoFns {
+		if !keyInPkg(fnKey(f), "pkg/collector") {
+			continue
+		}
+		eachInstr(f, func(in ssa.Instruction) {
+			c, ok := in.(*ssa.Call)
+			if !ok {
+				return
+			}
+			b, ok := c.Call.Value.(*ssa.Builtin)
+			if !ok || b.Name() != "delete" || len(c.Call.Args) != 2 || !isFieldLoad(c.Call.Args[0], "pkg/collector.CollectingProcess.templatesMap") {
+				return
+			}
+			n++
+			okEmpty := false
+			for _, fct := range blockFacts(in.Block()) {
+				lc, ok := fct.X.(*ssa.Call)
+				if !ok {
+					continue
+				}
+				if bb, ok := lc.Call.Value.(*ssa.Builtin); !ok || bb.Name() != "len" {
+					continue
+				}
+				if mt, ok := lc.Call.Args[0].Type().Underlying().(*types.Map); !ok || typeName(mt.Elem()) != "pkg/collector.template" {
+					continue
+				}
+				z, ok := constInt(fct.Y)
+				if !ok {
+					continue
+				}
+				if (fct.Op == token.EQL && z == 0) || (fct.Op == token.LSS && z == 1) || (fct.Op == token.LEQ && z == 0) {
+					okEmpty = true
+				}
+			}
+			r.Check(okEmpty, rule, fnKey(f)+": the observation domain's map is removed only when empty", p.instrPos(in), "delete(templatesMap, obsDomainID) under len(inner map) == 0",
+				"the per-domain map is removed while it may still hold templates (an off-by-one in the emptiness test): valid templates of other ids / other connections in the same observation domain are dropped and their data sets rejected", true)
+		})
+	}
+	if n == 0 {
+		r.Undecided(rule, "anchor: delete(templatesMap, obsDomainID)", "pkg/collector/process.go", "not found")
 	}
 }
